@@ -797,4 +797,210 @@ theorem run_spec {t nc numColumns : Nat} (ht : 0 < t) (hnc : 0 < nc)
     rw [colConcat_append, hfinc c hc, ← List.append_assoc, hcons c, bufRows_init,
       List.nil_append, ← padding_mod t pad (totalRows bs), hmod]
 
+/-! ## Alignment, the error branches, and column-count deduction -/
+
+theorem getElem?_flatten_offset {β : Type} :
+    ∀ (L : List (List β)) (j i : Nat) (x : List β), L[j]? = some x → i < x.length →
+      L.flatten[((L.take j).map List.length).sum + i]? = x[i]? := by
+  intro L
+  induction L with
+  | nil => intro j i x h; simp at h
+  | cons a L ih =>
+    intro j i x h hi
+    cases j with
+    | zero =>
+      simp only [List.getElem?_cons_zero, Option.some.injEq] at h
+      subst h
+      simp [List.getElem?_append_left hi]
+    | succ j =>
+      simp only [List.getElem?_cons_succ] at h
+      simp only [List.take_succ_cons, List.map_cons, List.sum_cons, List.flatten_cons]
+      rw [Nat.add_assoc, List.getElem?_append_right (by omega), Nat.add_sub_cancel_left]
+      exact ih j i x h hi
+
+theorem sum_length_colRows {nc : Nat} {bs : List (Batch α)} (hwf : WF nc bs) {c : Nat}
+    (hc : c < nc) : ((bs.map (colRows · c)).map List.length).sum = totalRows bs := by
+  rw [← List.length_flatten]; exact length_colConcat hwf hc
+
+theorem WF.take {nc : Nat} {bs : List (Batch α)} (hwf : WF nc bs) (j : Nat) : WF nc (bs.take j) :=
+  fun b hb => hwf b (List.mem_of_mem_take hb)
+
+theorem step_bad_cols {t nc : Nat} (pad : Option α) (st : St α) {b : Batch α} (hb : b.length ≠ nc) :
+    step t nc pad st b = .error .value := by
+  unfold step
+  simp [hb]
+  rfl
+
+theorem step_bad_lens {t nc m : Nat} (pad : Option α) {st : St α} (hsh : Shape nc m st)
+    (hnc : 0 < nc) {b : Batch α} (hlen : b.length = nc)
+    (hbad : ¬ ∀ c ∈ b, c.rows.length = nrows b) :
+    step t nc pad st b = .error .value := by
+  have hne : b.isEmpty = false := by
+    cases b with
+    | nil => simp at hlen; omega
+    | cons => rfl
+  have hsz : List.zipWith (· + ·) st.sizes (b.map fun c => c.rows.length)
+      = b.map fun c => m + c.rows.length := by
+    rw [hsh.sizes_eq]
+    apply List.ext_getElem
+    · simp [hlen]
+    · intro i h1 h2; simp
+  have hall : allEq (b.map fun c => m + c.rows.length) = false := by
+    cases hb : b with
+    | nil => rw [hb] at hne; simp at hne
+    | cons c0 l =>
+      rw [Bool.eq_false_iff]
+      intro h
+      apply hbad
+      rw [hb]
+      simp only [allEq, List.map_cons, List.headD_cons, List.all_eq_true] at h
+      intro c hc
+      have := h (m + c.rows.length) (by
+        rcases List.mem_cons.mp hc with e | e
+        · subst e; simp
+        · exact List.mem_cons_of_mem _ (List.mem_map.mpr ⟨c, e, rfl⟩))
+      simp only [beq_iff_eq] at this
+      simp only [nrows, List.headD_cons]; omega
+  unfold step
+  simp [hlen, hne, hsz, hall]
+  rfl
+
+theorem effCols_append {numColumns : Nat} {xs : List (Batch α)} (ys : List (Batch α)) (hne : xs ≠ []) :
+    effCols numColumns (xs ++ ys) = effCols numColumns xs := by
+  cases xs with
+  | nil => exact absurd rfl hne
+  | cons b xs => simp [effCols]
+
+theorem run_eq_eff {t numColumns : Nat} (ht : 0 < t) (pad : Option α) {bs : List (Batch α)}
+    (hne : bs ≠ []) :
+    run t numColumns pad bs
+      = runFrom t (effCols numColumns bs) pad (St.init (effCols numColumns bs)) [] bs := by
+  have ht0 : (t == 0) = false := by simp; omega
+  unfold run effCols
+  simp only [ht0, Bool.false_eq_true, if_false]
+  cases bs with
+  | nil => exact absurd rfl hne
+  | cons b bs => by_cases h : numColumns = 0 <;> simp [h]
+
+section RowView
+variable {β : Type}
+
+/-! ## Row view (for `TreeFn._iterate`) -/
+
+/-- the rows `0..n-1` read across the columns `X 0 .. X (nc-1)` -/
+def rowsOfCols [Inhabited α] (nc : Nat) (X : Nat → List α) (n : Nat) : List (List α) :=
+  (List.range n).map fun i => (List.range nc).map fun c => (X c).getD i default
+
+theorem map_eq_range_map {γ δ : Type} (l : List γ) (d : γ) (f : γ → δ) :
+    l.map f = (List.range l.length).map fun i => f (l.getD i d) := by
+  apply List.ext_getElem
+  · simp
+  · intro i h1 h2
+    simp at h1
+    simp [List.getD_eq_getElem?_getD, List.getElem?_eq_getElem h1]
+
+theorem rowsOf_eq [Inhabited α] {nc r : Nat} {b : Batch α} (h : Rect nc r b) :
+    rowsOf b = rowsOfCols nc (colRows b) (nrows b) := by
+  simp only [rowsOf, rowsOfCols]
+  apply List.map_congr_left
+  intro i _
+  rw [map_eq_range_map b default, h.1]
+  rfl
+
+theorem rowsOfCols_congr [Inhabited α] {nc : Nat} {X Y : Nat → List α} (n : Nat)
+    (h : ∀ c, c < nc → X c = Y c) : rowsOfCols nc X n = rowsOfCols nc Y n := by
+  simp only [rowsOfCols]
+  apply List.map_congr_left
+  intro i _
+  apply List.map_congr_left
+  intro c hc
+  rw [h c (by simpa using hc)]
+
+theorem rowsOfCols_append [Inhabited α] {nc a : Nat} {A B : Nat → List α} (n : Nat)
+    (hA : ∀ c, c < nc → (A c).length = a) :
+    rowsOfCols nc (fun c => A c ++ B c) (a + n) = rowsOfCols nc A a ++ rowsOfCols nc B n := by
+  simp only [rowsOfCols, List.range_add, List.map_append, List.map_map]
+  congr 1
+  · apply List.map_congr_left
+    intro i hi
+    apply List.map_congr_left
+    intro c hc
+    have hi : i < a := by simpa using hi
+    have hc : c < nc := by simpa using hc
+    simp [List.getD_eq_getElem?_getD, List.getElem?_append_left (by rw [hA c hc]; exact hi)]
+  · apply List.map_congr_left
+    intro i _
+    apply List.map_congr_left
+    intro c hc
+    have hc : c < nc := by simpa using hc
+    have h1 : (A c).length ≤ a + i := by rw [hA c hc]; omega
+    simp [List.getD_eq_getElem?_getD, List.getElem?_append_right h1, hA c hc]
+
+theorem flatMap_rowsOf [Inhabited α] {nc : Nat} {xs : List (Batch α)} (hwf : WF nc xs) :
+    xs.flatMap rowsOf = rowsOfCols nc (colConcat xs) (totalRows xs) := by
+  induction xs with
+  | nil => simp [rowsOfCols, totalRows]
+  | cons b xs ih =>
+    rw [WF.cons] at hwf
+    rw [List.flatMap_cons, ih hwf.2, rowsOf_eq hwf.1]
+    have : totalRows (b :: xs) = nrows b + totalRows xs := by simp [totalRows]
+    rw [this]
+    exact (rowsOfCols_append (A := colRows b) (B := colConcat xs) (totalRows xs)
+      (fun c hc => hwf.1.colRows_len hc)).symm
+
+/-- the rows of a well-formed stream depend only on its column concatenations -/
+theorem flatMap_rowsOf_congr [Inhabited α] {nc : Nat} (hnc : 0 < nc) {xs ys : List (Batch α)}
+    (hx : WF nc xs) (hy : WF nc ys) (h : ∀ c, c < nc → colConcat xs c = colConcat ys c) :
+    xs.flatMap rowsOf = ys.flatMap rowsOf := by
+  rw [flatMap_rowsOf hx, flatMap_rowsOf hy, ← length_colConcat hx hnc, ← length_colConcat hy hnc,
+    h 0 hnc]
+  exact rowsOfCols_congr _ h
+
+theorem length_rowsOf [Inhabited α] (b : Batch α) : (rowsOf b).length = nrows b := by
+  simp [rowsOf]
+
+theorem mapRows_rect [Inhabited α] [Inhabited β] (g : List α → List β) {kinds : List Kind}
+    (hk : ∀ k ∈ kinds, k ≠ .other) (b : Batch α) :
+    Rect kinds.length (nrows b) (mapRows g kinds b) := by
+  refine ⟨by simp [mapRows, ofRows], ?_⟩
+  intro c hc
+  simp only [mapRows, ofRows, List.mem_map, List.mem_range] at hc
+  obtain ⟨i, hi, rfl⟩ := hc
+  refine ⟨?_, by simp [length_rowsOf]⟩
+  simp only [List.getD_eq_getElem?_getD, List.getElem?_eq_getElem hi, Option.getD_some]
+  exact hk _ (List.getElem_mem hi)
+
+theorem colRows_mapRows [Inhabited α] [Inhabited β] (g : List α → List β) {kinds : List Kind}
+    (b : Batch α) {c : Nat} (hc : c < kinds.length) :
+    colRows (mapRows g kinds b) c = (rowsOf b).map fun r => (g r).getD c default := by
+  simp [colRows, mapRows, ofRows, List.getD_eq_getElem?_getD, hc]
+
+theorem colConcat_mapRows [Inhabited α] [Inhabited β] (g : List α → List β) {kinds : List Kind}
+    (xs : List (Batch α)) {c : Nat} (hc : c < kinds.length) :
+    colConcat (xs.map (mapRows g kinds)) c
+      = (xs.flatMap rowsOf).map fun r => (g r).getD c default := by
+  induction xs with
+  | nil => rfl
+  | cons b xs ih => simp [colRows_mapRows g b hc, ih]
+
+theorem wf_mapRows [Inhabited α] [Inhabited β] (g : List α → List β) {kinds : List Kind}
+    (hk : ∀ k ∈ kinds, k ≠ .other) (hn : 0 < kinds.length) (xs : List (Batch α)) :
+    WF kinds.length (xs.map (mapRows g kinds)) := by
+  intro b hb
+  simp only [List.mem_map] at hb
+  obtain ⟨b0, _, rfl⟩ := hb
+  have := mapRows_rect g hk b0
+  rw [this.nrows hn]; exact this
+
+theorem totalRows_mapRows [Inhabited α] [Inhabited β] (g : List α → List β) {kinds : List Kind}
+    (hk : ∀ k ∈ kinds, k ≠ .other) (hn : 0 < kinds.length) (xs : List (Batch α)) :
+    totalRows (xs.map (mapRows g kinds)) = totalRows xs := by
+  induction xs with
+  | nil => rfl
+  | cons b xs ih =>
+    simp only [totalRows, List.map_cons, List.sum_cons] at ih ⊢
+    rw [ih, (mapRows_rect g hk b).nrows hn]
+
+end RowView
+
 end MlModel.Rebatch
